@@ -229,6 +229,7 @@ impl<'a> SubregisterSubstitutionBuilder<'a> {
                             Expression::Var(cast_var) if cast_var == input_var => {
                                 if input_reg.register != input_reg.base_register
                                     && input_reg.base_register == reg.register
+                                    && var.size == reg.size
                                 {
                                     return true;
                                 }
